@@ -124,6 +124,13 @@ func ReplayAll(run *ev.Run, plan Plan, traces []*Trace, source string) {
 		rig.Close()
 		run.Eval(t.Sig(), t.NonTrivial())
 		run.Add("steps_replayed", int64(rep.Steps))
+		for i := 0; i < rep.Steps && i < len(t.Steps); i++ {
+			k := "replayed_" + t.Steps[i].Act
+			if t.Steps[i].Status != "OK" && t.Steps[i].Status != "" {
+				k += "_" + t.Steps[i].Status
+			}
+			run.Add(k, 1)
+		}
 		run.Add("traces_validated_against_impl", 1)
 		if ti < 2 {
 			run.Sample(map[string]interface{}{"source": source, "abstract_steps": describeAll(t), "concrete": rep.Log})
